@@ -116,6 +116,9 @@ func runReinvest(ctx *action.Context, tx action.RawTx) (bool, action.Response) {
 	if !coinAmt.IsValid() {
 		return helpers.LogAndReturnFalse(ctx.Logger, action.ErrInvalidAmount, invest.Tags(), errors.New("Coin is not valid"))
 	}
+	if coinAmt.Currency.Name != "OLT" {
+		return helpers.LogAndReturnFalse(ctx.Logger, action.ErrInvalidCurrency, invest.Tags(), errors.New("currency is not OLT"))
+	}
 	err = ctx.NetwkDelegators.Rewards.MinusRewardsBalance(invest.Delegator, coinAmt.Amount)
 	if err != nil {
 		return helpers.LogAndReturnFalse(ctx.Logger, netwkDeleg.ErrReinvestRewards, invest.Tags(), err)
